@@ -32,9 +32,10 @@ func (r Range) Index(i int) any { return r.b + i }
 
 // AsArray converts the range into an array.
 func (r Range) AsArray() []any {
-	a := make([]any, 0, r.Len())
-	for i := r.b; i <= r.e; i++ {
-		a = append(a, i)
+	n := r.Len()
+	a := make([]any, 0, n)
+	for k := 0; k < n; k++ { // (counting k, not the integers themselves: the range may end at the largest int)
+		a = append(a, r.b+k)
 	}
 	return a
 }
